@@ -52,6 +52,9 @@ type C15Op struct {
 // C15Case is a sequence over 3 accounts, 5 pools and 2 contracts.
 type C15Case struct {
 	Ops []C15Op `json:"ops"`
+	// Dual: pool 4 and account 0 are the same key (accounts and pools are
+	// separate ledgers keyed by the same type; one key may play both roles)
+	Dual bool `json:"dual,omitempty"`
 }
 
 var lenTable = []uint64{64, 128, 4096, 4160, 1 << 16}
@@ -81,6 +84,7 @@ func genAmount15(t *rapid.T, label string) int {
 
 type c15 struct {
 	*session
+	dual bool
 	// nest, if set, names an RPC the next replenish runs between the host's
 	// quote and the renter's signature: "pay" (a verify paid from a listed
 	// account / an account the listed pool is attached to) or "fund-other" (the
@@ -804,6 +808,13 @@ func (x *c15) attach(op C15Op) error {
 	for i := 0; i+1 < len(op.Batch); i += 2 {
 		pairs = append(pairs, pair{mod(op.Batch[i], len(x.Accts)), mod(op.Batch[i+1], len(x.Pools))})
 	}
+	if x.dual {
+		for i := range pairs {
+			if pairs[i].a == 0 && pairs[i].p == 4 {
+				pairs[i].p = 3 // the dual-role key is never attached to itself
+			}
+		}
+	}
 	hostKey := x.H.HostKey.PublicKey()
 	detach := op.Op == "detach"
 	if detach && op.Pick > 0 {
@@ -1019,6 +1030,11 @@ func runC15(c C15Case, cs *kit.CaseStats) error {
 		return err
 	}
 	defer x.close()
+	if c.Dual {
+		x.dual = true
+		x.PoolKeys[4], x.Pools[4] = x.AcctKeys[0], x.Accts[0]
+		cs.Class("one-key-is-both-account-and-pool")
+	}
 	for i, op := range c.Ops {
 		if err := x.step(op); err != nil {
 			if stop, e := infra(cs, err); stop {
@@ -1158,12 +1174,20 @@ func genC15(t *rapid.T) C15Case {
 		}
 		c.Ops = append(c.Ops, op)
 	}
+	if rapid.IntRange(0, 3).Draw(t, "dual") == 0 {
+		c.Dual = true
+		for i := range c.Ops {
+			if op := &c.Ops[i]; (op.Op == "attach" || op.Op == "detach") && op.A != 0 && op.Pick == 0 && rapid.Bool().Draw(t, "dualpool") {
+				op.P = 4
+			}
+		}
+	}
 	return c
 }
 
 var c15Prop = kit.Prop[C15Case]{
 	ID:   "C15",
-	Rule: "sequences (2..14, thorough 2..24) over 3 accounts, 5 pools and 2 contracts against the real rhp4.Server: fund, replenish accounts/pools (targets below, at and above the current balance, mixed keys; amounts and targets up to the edges of the 128-bit range, the renter signing the wrapped total when a sum overflows), a verify paid from a listed account or a funding of the listed key through the other contract forced between a replenish quote and the renter's signature (the host must credit exactly the quoted deposits), attach/detach (valid incl. batches and idempotent repeats; signed by the wrong key; bound to another host key; expired; never-funded pool), read/write/verify with the drawable funds (own balance + attached pools, split by drawn weights) topped up to cost-1, cost or cost+1, ranges over the whole domain the request validation accepts (offset inside a leaf with aligned end, range ending at the sector end, last leaf, whole sector, leaf index 65535), unknown sectors, invalid account tokens, a renter that stops / stalls / truncates the request or the data stream or does not read the answer, balance queries. Oracle from the recorded Contractor/Sectors calls and a balance model: every credit batch is carried by exactly one doubly-signed revision moving the same total from renter to host; every debit carries core's price of the request and precedes the single sector operation; insufficient funds / invalid token / unknown sector => no data, no sector operation, no balance change; replenish leaves max(before, target); rejected attach/detach never reach the contractor; balances and the ordered attachment table (read by value) equal the model (own balance first, then pools in attachment order) after every step. Non-trivial = a debit that drains the account's own balance and continues into a pool, or a request exactly one hasting short; distinct by hash of the case.",
+	Rule: "sequences (2..14, thorough 2..24) over 3 accounts, 5 pools (in a quarter of the cases pool 4 and account 0 are one and the same key) and 2 contracts against the real rhp4.Server: fund, replenish accounts/pools (targets below, at and above the current balance, mixed keys; amounts and targets up to the edges of the 128-bit range, the renter signing the wrapped total when a sum overflows), a verify paid from a listed account or a funding of the listed key through the other contract forced between a replenish quote and the renter's signature (the host must credit exactly the quoted deposits), attach/detach (valid incl. batches and idempotent repeats; signed by the wrong key; bound to another host key; expired; never-funded pool), read/write/verify with the drawable funds (own balance + attached pools, split by drawn weights) topped up to cost-1, cost or cost+1, ranges over the whole domain the request validation accepts (offset inside a leaf with aligned end, range ending at the sector end, last leaf, whole sector, leaf index 65535), unknown sectors, invalid account tokens, a renter that stops / stalls / truncates the request or the data stream or does not read the answer, balance queries. Oracle from the recorded Contractor/Sectors calls and a balance model: every credit batch is carried by exactly one doubly-signed revision moving the same total from renter to host; every debit carries core's price of the request and precedes the single sector operation; insufficient funds / invalid token / unknown sector => no data, no sector operation, no balance change; replenish leaves max(before, target); rejected attach/detach never reach the contractor; balances and the ordered attachment table (read by value) equal the model (own balance first, then pools in attachment order) after every step. Non-trivial = a debit that drains the account's own balance and continues into a pool, or a request exactly one hasting short; distinct by hash of the case.",
 	Assumptions: []string{
 		"host = rhp4.Server over the repository's reference EphemeralContractor / EphemeralSectorStore, in-memory transport",
 		"a replenish request may list a key twice (the request validation does not exclude it); the expectation is the statement's: the balance ends at max(before, target); a host that refuses such a request outright is accepted too",
